@@ -77,8 +77,8 @@ def run(tier, seed, replay=None):
     rep.partial = ["termination for connected diagrams (C06_termination) and canonicity "
                    "(C06_canonicity) are NOT proved; supported by the class exploration below"]
     rep.lean = lean_obligations(PROP, thorough=(tier == "thorough"))
-    n_diagrams = 150 if tier == "quick" else 1200
-    n_classes = 25 if tier == "quick" else 300
+    n_diagrams = 150 if tier == "quick" else 4000
+    n_classes = 25 if tier == "quick" else 1500
     rng = random.Random(seed)
     drv = Driver()
     fam = Family("monoidal")
